@@ -95,6 +95,14 @@ def fault_cases(tier):
     for name in ('y', 'dy', 'source_idx', 'target_idx', 'pi', 'I', 'E', 'S', 'Q', 'O', 'N', 'oo', 'zoo', 'nan', 'beta', 'gamma',
                  'exp', 'log', 'sin', 'cos', 'tan', 'sqrt', 'abs', 'x_buffer', 'x_delays', 'q_maxdelay', 'q_idx', 'x_hist'):
         out.append({'kind': 'fault', 'fault': 'reserved_name', 'name': name})
+    # a misspelt variable in the operator overrides of a node template / in node_values, on the first, second and
+    # third node that uses the operator; a variable that only ANOTHER operator declares
+    for pos in (0, 1, 2):
+        for via in ('node_template', 'node_values'):
+            for vec in (False, True):
+                out.append({'kind': 'fault', 'fault': 'override_typo', 'pos': pos, 'via': via, 'vectorize': vec})
+    for where in ('other_node', 'same_node', 'other_node_declared_first'):
+        out.append({'kind': 'fault', 'fault': 'foreign_variable', 'where': where})
     out.append({'kind': 'fault', 'fault': 'two_outputs'})
     out.append({'kind': 'fault', 'fault': 'operator_cycle'})
     out.append({'kind': 'fault', 'fault': 'edge_template_two_outputs'})
@@ -248,6 +256,34 @@ def run_fault(case, res):
             elif f == 'reserved_name':
                 n = case['name']
                 result = mk(so_vars={'x': 'output(0.6)', 'k': 1.5, n: 0.5}, so_eq=[f"d/dt * x = -k*x + 0*{n}" if n not in ('exp', 'log', 'sin', 'cos', 'tan', 'sqrt', 'abs') else "d/dt * x = -k*x"]).run(**run_kw)
+            elif f == 'override_typo':
+                so = OperatorTemplate('so', equations=["d/dt * x = -k*x"], variables={'x': 'output(0.6)', 'k': 1.5})
+                labels = ['n0', 'n1', 'n2']
+                tpls = {}
+                for i, l in enumerate(labels):
+                    ov = {'k': 2.0 + i}
+                    if case['via'] == 'node_template' and i == case['pos']:
+                        ov['kk'] = 5.0
+                    tpls[l] = NodeTemplate(l, operators={so: ov})
+                c = CircuitTemplate('net', nodes=tpls)
+                rk = dict(run_kw, outputs={'v': 'n0/so/x'}, vectorize=case['vectorize'])
+                if case['via'] == 'node_values':
+                    rk['node_values'] = {f"n{case['pos']}/so/kk": 5.0}
+                result = c.run(**rk)
+            elif f == 'foreign_variable':
+                so = OperatorTemplate('so', equations=["d/dt * x = -k*x"], variables={'x': 'output(0.6)', 'k': 1.5})
+                to = OperatorTemplate('to', equations=["d/dt * v = -k*v + u"], variables={'v': 'output(0.1)', 'u': 'input(0.0)'})
+                if case['where'] == 'same_node':
+                    nodes = {'a': NodeTemplate('a', operators=[so, to])}
+                    edges = []
+                elif case['where'] == 'other_node':
+                    nodes = {'a': NodeTemplate('a', operators=[so]), 'b': NodeTemplate('b', operators=[to])}
+                    edges = [('a/so/x', 'b/to/u', None, {'weight': 2.0})]
+                else:
+                    nodes = {'b': NodeTemplate('b', operators=[to]), 'a': NodeTemplate('a', operators=[so])}
+                    edges = [('a/so/x', 'b/to/u', None, {'weight': 2.0})]
+                result = CircuitTemplate('net', nodes=nodes, edges=edges).run(
+                    **dict(run_kw, outputs={'v': 'a/to/v' if case['where'] == 'same_node' else 'b/to/v'}))
             elif f == 'two_outputs':
                 result = mk(so_vars={'x': 'output(0.6)', 'k': 'output(1.5)'}).run(**run_kw)
             elif f == 'operator_cycle':
